@@ -144,7 +144,7 @@ def run(chk, binary):
         store = {"deviations": {}, "classes": {}}
     known_cases = store["deviations"]          # class -> list of case keys that deviate on the repaired tree
     known_classes = {k["class"].strip('"'): k["_line"].split(k["class"], 1)[1].strip() for k in known_findings() if k.get("property") == "C02"}
-    dist = {"exhaustive_small_scope": 0, "sampled_small_scope": 0, "realistic": 0, "motion_model_cases": 0, "agree": 0, "known_case": 0, "known_class": 0,
+    dist = {"exhaustive_small_scope": 0, "sampled_small_scope": 0, "realistic": 0, "operators_vs_vim": 0, "motion_model_cases": 0, "agree": 0, "known_case": 0, "known_class": 0,
             "ghost_line": 0, "vim_error": 0, "fixed_since_recorded": 0}
     # ---- family A0: exhaustive over texts up to length 2 (3 on thorough) x every cursor x every command ----
     cases = []
@@ -170,14 +170,49 @@ def run(chk, binary):
         picked = [rng_b.choice(cmds) for _ in range(rng_b.choice([1, 1, 2, 3]))]
         cases.append({"text": t, "cursor": rng_b.choice(cursors(t)), "keys": [x for _, ks in picked for x in ks], "cls": " ; ".join(p[0] for p in picked),
                       "family": "B", "classes": [p[0] for p in picked]})
+    # ---- family OP: d / y / c over the modelled motions (and dd yy cc) with counts: Vim = Coq operator model, vicut vs Vim ----
+    rng_o = random.Random(1003)
+    for _ in range(40000 if thorough else 6000):
+        flat = "\n".join(VR.text_to_lines(rng_o.choice(texts)))       # lines separated by the line break, as the model sees a buffer
+        op = rng_o.choice(["d", "d", "y", "c"])
+        mk = rng_o.choice(sorted(MODEL_MOTIONS) + [None, None])
+        n = 1 if mk in ("0", "^", "$") else rng_o.choice([1, 1, 2, 3])
+        k = (str(n) if n > 1 else "") + op + (mk if mk else op) + ("Z<esc>" if op == "c" else "")
+        cls = f"op {op} + {'N' if n > 1 else ''}{mk if mk else op}"
+        cases.append({"text": flat + "\n", "cursor": rng_o.choice(cursors(flat)), "keys": [k], "cls": cls, "family": "OP", "classes": [cls], "opcase": (op, mk, n, flat)})
     vim = VR.run_vim(cases)
     ans = server_map(binary, [{"op": "keys", "text": c["text"], "cursor": c["cursor"], "keys": ["".join(c["keys"])], "last_only": True} for c in cases])
+    # the operator model against Vim: no tolerance
+    opn = {"d": 0, "y": 1, "c": 2}
+    opidx = [i for i, c in enumerate(cases) if c["family"] == "OP"]
+    opmodel = run_coq_eval("c02_ops", ["Base.Prelude", "Model.Motions", "Model.Ops", "Model.Obs"], "op_obs",
+                           [(opn[cases[i]["opcase"][0]], "Z" if cases[i]["opcase"][0] == "c" else "", txt(cases[i]["opcase"][3]),
+                             (C("Some", MODEL_MOTIONS[cases[i]["opcase"][1]]) if cases[i]["opcase"][1] else None), Nat(cases[i]["opcase"][2]), Nat(cases[i]["cursor"])) for i in opidx], shard=800)
+    op_diff = []
+    for i, m in zip(opidx, opmodel):
+        v = vim[i]
+        if v is None or v["err"]:
+            continue
+        mt, mc, mr = m
+        mt = untxt(mt)
+        mreg = None
+        if isinstance(mr, C) and mr.name == "Some":
+            lw, rt = mr.args[0]
+            mreg = (untxt(rt), "V" if lw else "v")
+        vreg = (v["reg"], v["regtype"]) if v["reg"] != "" else None
+        if mt.split("\n") != v["lines"] or VR.index_to_pos(mt, mc) != VR.index_to_pos("\n".join(v["lines"]), v["cursor"]) or mreg != vreg:
+            op_diff.append({"text": cases[i]["text"], "cursor": cases[i]["cursor"], "keys": cases[i]["keys"], "model": [mt.split("\n"), VR.index_to_pos(mt, mc), mreg],
+                            "vim": [v["lines"], VR.index_to_pos("\n".join(v["lines"]), v["cursor"]), vreg]})
+    dist["operator_model_cases"] = len(opidx)
+    dist["operator_model_vs_vim_differ"] = len(op_diff)
+    if op_diff:
+        chk.violation("correspondence:the reference model of the operators differs from Vim", {"cases": len(op_diff), "examples": op_diff[:5]}, concrete=False)
     new_store = {}
     seen_known = {}
     unknown = {}
     for idx, (c, v, a) in enumerate(zip(cases, vim, ans)):
         fam = c["family"]
-        dist["exhaustive_small_scope" if fam == "A0" else ("sampled_small_scope" if fam == "A" else "realistic")] += 1
+        dist["exhaustive_small_scope" if fam == "A0" else ("sampled_small_scope" if fam == "A" else "operators_vs_vim" if fam == "OP" else "realistic")] += 1
         chk.count(("c02", c["text"], c["cursor"], tuple(c["keys"])), nontrivial=True)
         if v is None or v["err"]:
             dist["vim_error"] += 1
